@@ -567,6 +567,21 @@ class TCPHiddenServiceEndpoint(object):
         self.tcp_listening_port = yield d
         self.local_port = self.tcp_listening_port.getHost().port
 
+        try:
+            port = yield self._create_service()
+        except Exception:
+            # don't leave the local listener behind if the onion
+            # service couldn't be created
+            tcp_port, self.tcp_listening_port = self.tcp_listening_port, None
+            yield defer.maybeDeferred(tcp_port.stopListening)
+            raise
+        return port
+
+    @defer.inlineCallbacks
+    def _create_service(self):
+        """
+        The part of listen() after the local port is listening.
+        """
         # XXX can we detect if tor supports Unix sockets here? I guess
         # we could try "unix:/tmp/blarg", and if it fails, try
         # "tcp:0:interface=127.0.0.1" ...?
